@@ -2,6 +2,7 @@ package yqlib
 
 import (
 	"fmt"
+	"strings"
 
 	yaml "gopkg.in/yaml.v3"
 )
@@ -73,6 +74,12 @@ func (o *CandidateNode) copyFromYamlNode(node *yaml.Node, anchorMap map[string]*
 
 func (o *CandidateNode) copyToYamlNode(node *yaml.Node) {
 	node.Style = MapToYamlStyle(o.Style)
+	if o.Kind == ScalarNode && (o.Style == 0 || o.Style == LiteralStyle || o.Style == FoldedStyle) &&
+		strings.Contains(o.Value, "\n") && (strings.HasPrefix(o.Value, "\n") || strings.HasPrefix(o.Value, "\t")) {
+		// the yaml library writes such text as a block scalar that loses the leading line break,
+		// and it cannot read back a block scalar whose first line starts with a tab
+		node.Style = yaml.DoubleQuotedStyle
+	}
 
 	node.Tag = o.Tag
 	node.Value = o.Value
